@@ -228,6 +228,13 @@ def gen_cases(desc, env):
         texts = []
         if desc['i'] < 4:
             texts += [t.encode('utf-8') for t in HOSTILE[desc['i']::4]]
+        if desc['i'] in (6, 7):
+            # systematic families shared with C03/C02 (recursion refinement, value-class matrix, templated / property calls) under
+            # their own small context: every one of them must fail exactly when a critical error is logged
+            from . import p03
+            fixed = p03.refine_cases()[0]
+            ctxop = fixed['ops'][0]
+            texts = [op['text'].encode('utf-8') for op in fixed['ops'][1:]][desc['i'] - 6::2]
         sg = rg.SynGen(rnd)
         n = 60 if quick else 1500
         for _ in range(n):
